@@ -239,36 +239,11 @@ var regexpTests = []struct {
 		mustNotMatch: []string{"a"},
 	},
 	{pat: `[z-a]`, wantErr: `^invalid range: z-a$`},
-	{pat: `[+-\*]`, wantErr: `^invalid range: \+-\*$`},
-	{pat: `[*-\+]`, want: `(?s)[*-\+]`},
-	{pat: `[a-\]]`, wantErr: `^invalid range: a-\]$`},
 	{pat: `[a-a]`, want: `(?s)[a-a]`},
 	{pat: `[aa]`, want: `(?s)[aa]`},
 	{pat: `[0-4A-Z]`, want: `(?s)[0-4A-Z]`},
 	{pat: `[-a]`, want: `(?s)[-a]`},
 	{pat: `[^-a]`, want: `(?s)[^-a]`},
-	{
-		pat: `[-*]`, want: `(?s)[-*]`,
-		mustMatch:    []string{"-", "*"},
-		mustNotMatch: []string{"+"},
-	},
-	{pat: `[!-*]`, want: `(?s)[^-*]`},
-	{
-		pat: `[[:digit:]-Z]`, want: `(?s)[[:digit:]-Z]`,
-		mustMatch:    []string{"5", "-", "Z"},
-		mustNotMatch: []string{"A", "]"},
-	},
-	{
-		pat: `@(a|b)c`, mode: ExtendedOperators | EntireString, want: `(?s)^(a|b)c$`,
-		mustMatch:    []string{"ac", "bc"},
-		mustNotMatch: []string{"c", "@(a|b)c"},
-	},
-	{
-		pat: `x*(a|b`, mode: ExtendedOperators | EntireString, want: `(?s)^x\*\(a\|b$`,
-		mustMatch:    []string{"x*(a|b"},
-		mustNotMatch: []string{"x", "xa", "x(a|b"},
-	},
-	{pat: `@(a|+(b`, mode: ExtendedOperators | EntireString, want: `(?s)^@\(a\|\+\(b$`},
 	{pat: `[a-]`, want: `(?s)[a-]`},
 	{pat: `[[:digit:]]`, want: `(?s)[[:digit:]]`},
 	{
